@@ -184,12 +184,13 @@ def monitor(r):
     if st == "timeout":
         return ("no_hang", "reading" if r["stage"] == "0" else "after-accept", "killed after the per-case time-out")
     if r["asan"] != "-":
-        m = re.search(r"#\d+ 0x[0-9a-f]+ in (\w+) [^\n]*(?:src/|parse_)", err.decode("latin-1"))
-        return ("no_memerr" if r["stage"] == "0" else "accepted_runs", r["asan"], head)
+        m = re.search(r"#\d+ 0x[0-9a-f]+ in (\w+) [^\n]*(?:src/(?:powerman|liblsd|libcommon)/|parse_tab\.y|parse_lex\.l)", err.decode("latin-1"))
+        return ("no_memerr" if r["stage"] == "0" else "accepted_runs", r["asan"] + (":" + m.group(1) if m else ""), head)
     if r["ubsan"] == "1":
         m = re.search(r"([\w.]+):(\d+):\d+: runtime error: ([^\n]*)", err.decode("latin-1"))
         what = m.group(3) if m else ""
         site = "float-cast" if "outside the range of representable values" in what else ("null-arg" if "null pointer" in what else "ubsan")
+        site += ":" + (os.path.basename(m.group(1)) if m else "")
         return ("no_memerr" if r["stage"] == "0" else "accepted_runs", site, head)
     if r["assert"] == "1" or st == "sig:6":
         m = re.search(r"([\w./-]+):(\d+): (\w+): Assertion", err.decode("latin-1"))
@@ -694,7 +695,7 @@ def shrink(ctx, impl, case, sig, budget=12):
 
 # ====================================================================== entry points
 def run(ctx, V):
-    proofs_ok = vlib.proof_gate(ctx, V)
+    proofs_ok = vlib.proof_gate(ctx, V, extract=["Extract/ExLexer.vo"])
     impl, model, codes, msgs = build(ctx)
     oracle = Oracle(impl)
     rng = ctx.rng
@@ -761,7 +762,7 @@ def run(ctx, V):
 
 def replay(ctx, V, path):
     d = json.load(open(path))
-    vlib.proof_gate(ctx, V)
+    vlib.proof_gate(ctx, V, extract=["Extract/ExLexer.vo"])
     impl, model, codes, msgs = build(ctx)
     oracle = Oracle(impl)
     cs = d.get("case")
